@@ -127,6 +127,8 @@ type World struct {
 	Partitioned func(a, b netip.Addr) bool
 	// OnDial is called for every connection attempt (C17 observes it).
 	OnDial func(owner Owner, network, address string, resolved string)
+	// OnUDPSend sees every datagram as it is sent (before loss).
+	OnUDPSend func(owner Owner, src, dst netip.AddrPort, b []byte)
 	// ICMP makes a datagram to an unbound port bounce ECONNREFUSED to a
 	// connected sender.
 	ICMP bool
